@@ -4,6 +4,7 @@ import (
 	"bytes"
 	"fmt"
 	"regexp"
+	"sort"
 	"strconv"
 	"strings"
 
@@ -718,6 +719,12 @@ func init() {
 				c06HTMLBlockDriver(x, []string{open + name + term, "y", "", "z"})
 			})
 			c.Explore("empty-item-start", "a list marker alone on its line (8 marker spellings), optionally one blank line (6 spellings: empty, 1-3 and 6 spaces, a tab), then a text line indented 0-8 columns; at top level and in a block quote; LF, CRLF and CR", -1, 0, c06EmptyItemStart)
+			var entNames []string
+			for n := range ref.EntityNames {
+				entNames = append(entNames, n)
+			}
+			sort.Strings(entNames)
+			c.Explore("all-entities", fmt.Sprintf("each of the %d HTML5 named character references, and each name with one more letter appended, in running text, in a link title, in a heading and (values without white space) in an info string", len(entNames)), -1, 0, func(x *X) { c06AllEntities(x, entNames) })
 			c.Inputs(spLinkTail, c.Pick(6, 7), c06LinkTailDriver)
 			c.Inputs(spRawTag, c.Pick(5, 7), c06RawDriver)
 			c.Inputs(spRawAttr, c.Pick(6, 7), c06RawDriver)
@@ -844,6 +851,33 @@ func c20SecondImpl(c *Ctx) {
 		ctx := x.ChooseFree(len(c06Contexts))
 		doc := append(wrapContext(ctx, &ref.Block{Kind: ref.BPara, Inl: seq}), refDefs()...)
 		c20Roundtrip(x, doc, c06Contexts[ctx])
+	})
+	c.Explore("canonical-escaped-texts", "texts of <=3 characters over {a, space, 32 ASCII punctuation characters} (S_fmt keeps those whose punctuation the formatter handles) in a paragraph and in an ATX heading, in each of the 8 contexts, canonical spelling", 0, 3, func(x *X) {
+		const chars = "a !\"#$%&'()*+,-./:;<=>?@[\\]^_`{|}~"
+		var seq []ref.Inl
+		for i := 0; i < 3; i++ {
+			k := x.ChooseFree(len(chars) + 1)
+			if k == 0 {
+				break
+			}
+			switch c := chars[k-1]; c {
+			case 'a':
+				seq = append(seq, word("a"))
+			case ' ':
+				seq = append(seq, inlSpace)
+			default:
+				seq = append(seq, punct(string(c)))
+			}
+		}
+		if len(seq) == 0 {
+			return
+		}
+		ctx := x.ChooseFree(len(c06Contexts))
+		leaf := &ref.Block{Kind: ref.BPara, Inl: seq}
+		if x.ChooseFree(2) == 1 {
+			leaf = &ref.Block{Kind: ref.BATX, Level: 2, Inl: seq}
+		}
+		c20Roundtrip(x, wrapContext(ctx, leaf), c06Contexts[ctx])
 	})
 	c.Explore("canonical-list-shapes", "S_fmt trees of nested lists (bullet/ordered x tight/loose x 1-2 items, sub-lists, trailing paragraphs) in the canonical spelling", 0, 0, func(x *X) {
 		budget := 9
